@@ -101,6 +101,13 @@ def fields(ctx, facts):
         if r["k"] == "agg" and r.get("adt") == "std::ops::RangeFrom":
             rfrom.append([flow.expr_of(b, o) for o in r["ops"]])
     ok = len(rng) == 1 and len(rfrom) == 1 and rng[0][0] == ("const", 0) and "TAG_OFFSET" in str(rng[0][1]) and "TAG_OFFSET" in str(rfrom[0][0])
+    if not ok and not rng and not rfrom:
+        # `let (row, tag) = buf.as_slice().split_at(S::TAG_OFFSET)`: .0 feeds the share, .1 the tag
+        sp = [(bb, t) for bb, t in b.calls() if re.search(r"<impl \[T\]>::split_at$", F.callee(t)[0] or "")]
+        if len(sp) == 1 and "TAG_OFFSET" in str(flow.expr_of(b, sp[0][1]["args"][1])):
+            des = [(F.callee(t)[2].get("self") or str(F.callee(t)[2].get("ga")), str(flow.expr_of(b, t["args"][0], max_depth=10))) for bb, t in b.calls() if (F.callee(t)[0] or "").endswith("Serializable::deserialize")]
+            halves = {("tag" if "Gf32Bit" in str(ty) else "row"): re.search(r"split_at'.*?\), (\d)\)", ex) for ty, ex in des}
+            ok = len(des) == 2 and halves.get("row") is not None and halves.get("tag") is not None and halves["row"].group(1) == "0" and halves["tag"].group(1) == "1"
     ctx.ob("FIELDS", "split_row_and_tag:cuts", ok, "row = buf[0..TAG_OFFSET], tag = buf[TAG_OFFSET..]" if ok else f"row/tag are cut at {rng} / {rfrom}", site_of(b))
 
 
